@@ -249,7 +249,19 @@ def p_sum(itp, name, args, kw, node, st):
     else:
         r.shape = None
     r.taint = n.taint | taints(axis)
-    USED.add('sum/mean: linear (same exponents as the summands)')
+    if name.endswith('mean') and r.sz is not None:
+        cnt = None
+        if n.shape is not None and len(n.shape) >= 1:
+            if axis is None or (isinstance(axis, Const) and axis.v is None):
+                if all(d is not None for d in n.shape):
+                    cnt = sp.Integer(1)
+                    for d in n.shape:
+                        cnt = cnt * d.to_sympy()
+            elif isinstance(axis, Const) and isinstance(axis.v, int) and -len(n.shape) <= axis.v < len(n.shape):
+                d = n.shape[axis.v]
+                cnt = d.to_sympy() if d is not None else None
+        r.sz = sp.cancel(r.sz / cnt) if cnt is not None else None
+    USED.add('sum/mean: linear (same exponents as the summands); mean divides by the number of elements')
     return r
 
 
